@@ -7,6 +7,11 @@ use crate::Family;
 pub fn families_for(prop: &str) -> Vec<Family> {
     match prop {
         "MIX" => vec![Family { name: "mix", cfg: mix_cfg, run: mix_run }],
+        "C08" => vec![
+            Family { name: "c08_manual", cfg: c08_cfg, run: c08_manual_run },
+            Family { name: "c08_rand", cfg: c08_cfg, run: c08_rand_run },
+        ],
+        "C14" => vec![Family { name: "c14", cfg: c14_cfg, run: c14_run }],
         "C03" => vec![
             Family { name: "c03_exh", cfg: c03_exh_cfg, run: c03_exh_run },
             Family { name: "c03_rand", cfg: c03_rand_cfg, run: c03_rand_run },
@@ -188,6 +193,10 @@ fn c03_drain(case: &mut Case, tr: &mut Traffic) {
         tr.recv_all(case, 6);
         case.ctl("step");
     }
+    // everything matured by now: empty the receive queues completely
+    let per_host = (tr.next_id as usize).min(300) + 2;
+    tr.recv_all(case, per_host);
+    case.ctl("step");
     case.ctl("mark drained");
 }
 
@@ -277,4 +286,242 @@ fn c03_rand_run(case: &mut Case, rng: &mut Rng) {
         case.ctl("step");
     }
     c03_drain(case, &mut tr);
+}
+
+// ---------------------------------------------------------------------------------------------
+// C08: hold / release / manual delivery
+
+fn c08_cfg(rng: &mut Rng) -> CaseCfg {
+    let min = *rng.pick(&[0u64, 0, 2]);
+    CaseCfg {
+        tick_ms: *rng.pick(&[1u64, 2]),
+        hosts: rng.range(2, 4) as usize,
+        minlat_ms: min,
+        maxlat_ms: min + *rng.pick(&[0u64, 3]),
+        rng_seed: rng.next(),
+        desc: rng.chance(1, 3),
+        v6: rng.chance(1, 5),
+        udpcap: 512,
+        ..CaseCfg::default()
+    }
+}
+
+fn perms(n: usize) -> Vec<Vec<usize>> {
+    if n == 0 {
+        return vec![vec![]];
+    }
+    let mut out = Vec::new();
+    for p in perms(n - 1) {
+        for i in 0..=p.len() {
+            let mut q = p.clone();
+            q.insert(i, n - 1);
+            out.push(q);
+        }
+    }
+    out
+}
+
+/// Hold h0-h1, send k ≤ 4 datagrams (both directions), then manually deliver a subset in a chosen
+/// order (all subsets × orders enumerated by case.idx), step, receive, release, drain.
+fn c08_manual_run(case: &mut Case, rng: &mut Rng) {
+    let hosts = case.cfg.hosts;
+    let mut tr = Traffic { next_id: 1 };
+    for h in 0..hosts {
+        case.ctl(&format!("q h{h} udp_bind s0 any:9000"));
+    }
+    case.ctl("step");
+    // something already in flight when the hold is imposed
+    tr.burst(case, rng, 1);
+    case.ctl("step");
+    case.ctl("links");
+    if rng.chance(1, 2) {
+        case.ctl("hold h0 h1");
+    } else {
+        case.ctl("q h0 net_hold h1 h0");
+        case.ctl("step");
+    }
+    let k = 1 + case.idx % 4;
+    for i in 0..k {
+        let (a, b) = if (case.idx / 4 + i) % 3 == 0 { (1, 0) } else { (0, 1) };
+        let id = tr.next_id;
+        tr.next_id += 1;
+        case.ctl(&format!("q h{a} udp_send s0 h{b}:9000 {}", hex(&[(id >> 8) as u8, id as u8, 0xAA])));
+    }
+    if hosts > 2 {
+        tr.burst(case, rng, 1);
+    }
+    case.ctl("step");
+    tr.recv_all(case, 3);
+    case.ctl("step");
+    case.ctl("links");
+    // choose subset + order
+    let sel = case.idx / 4;
+    let subset_bits = sel % (1 << k);
+    let chosen: Vec<usize> = (0..k).filter(|i| subset_bits & (1 << i) != 0).collect();
+    let ps = perms(chosen.len());
+    let order = &ps[(sel / (1 << k)) % ps.len()];
+    // indexes shift as messages leave the queue only after the next step, so raw indexes are stable here
+    for &oi in order {
+        case.ctl(&format!("deliver h0 h1 {}", chosen[oi]));
+    }
+    case.ctl("links");
+    case.ctl("step");
+    tr.recv_all(case, 6);
+    case.ctl("step");
+    case.ctl("links");
+    if rng.chance(1, 2) {
+        case.ctl("release h0 h1");
+    } else {
+        case.ctl("q h1 net_release h0 h1");
+    }
+    c03_drain(case, &mut tr);
+    case.ctl("links");
+}
+
+/// Random hold / release cycles from the Sim handle and from host code, UDP and TCP traffic.
+fn c08_rand_run(case: &mut Case, rng: &mut Rng) {
+    let hosts = case.cfg.hosts;
+    let mut tr = Traffic { next_id: 1 };
+    for h in 0..hosts {
+        case.ctl(&format!("q h{h} udp_bind s0 any:9000"));
+        case.ctl(&format!("q h{h} tcp_bind s1 any:80"));
+    }
+    case.ctl("step");
+    let with_tcp = rng.chance(1, 2);
+    if with_tcp {
+        case.ctl("q h0 tcp_connect s2 h1:80");
+    }
+    let rounds = rng.range(6, 24);
+    let mut held: Vec<(usize, usize)> = Vec::new();
+    let mut tcp_up = false;
+    for r in 0..rounds {
+        tr.burst(case, rng, 2);
+        if with_tcp {
+            if !tcp_up {
+                case.ctl("q h1 tcp_accept s1 s2");
+                case.ctl("q h0 tcp_cpoll s2");
+                if r > 3 {
+                    tcp_up = true;
+                }
+            } else {
+                match rng.below(4) {
+                    0 => case.ctl(&format!("q h0 tcp_write s2 {}", hex(&[r as u8, 1, 2]))),
+                    1 => case.ctl("q h1 tcp_read s2 8"),
+                    2 => case.ctl(&format!("q h1 tcp_write s2 {}", hex(&[r as u8, 9]))),
+                    _ => case.ctl("q h0 tcp_read s2 8"),
+                }
+            }
+        }
+        if rng.chance(1, 3) {
+            let a = rng.below(hosts as u64) as usize;
+            let b = (a + 1 + rng.below(hosts as u64 - 1) as usize) % hosts;
+            let key = (a.min(b), a.max(b));
+            let is_held = held.contains(&key);
+            case.ctl("links");
+            if !is_held {
+                if rng.chance(1, 3) {
+                    let h = rng.below(hosts as u64) as usize;
+                    case.ctl(&format!("q h{h} net_hold h{a} h{b}"));
+                } else {
+                    case.ctl(&format!("hold h{a} h{b}"));
+                }
+                held.push(key);
+            } else {
+                if rng.chance(1, 3) {
+                    let h = rng.below(hosts as u64) as usize;
+                    case.ctl(&format!("q h{h} net_release h{a} h{b}"));
+                } else {
+                    case.ctl(&format!("release h{a} h{b}"));
+                }
+                held.retain(|k| *k != key);
+            }
+        }
+        tr.recv_all(case, 4);
+        case.ctl("step");
+        if rng.chance(1, 4) {
+            case.ctl("links");
+        }
+    }
+    for (a, b) in held.clone() {
+        case.ctl(&format!("release h{a} h{b}"));
+    }
+    c03_drain(case, &mut tr);
+    case.ctl("links");
+}
+
+// ---------------------------------------------------------------------------------------------
+// C14: latency window and equal-latency FIFO
+
+fn c14_cfg(rng: &mut Rng) -> CaseCfg {
+    let min = *rng.pick(&[0u64, 0, 2, 5, 12]);
+    CaseCfg {
+        tick_ms: *rng.pick(&[1u64, 3, 7, 10]),
+        hosts: rng.range(2, 4) as usize,
+        minlat_ms: min,
+        maxlat_ms: min + *rng.pick(&[0u64, 4, 15, 40]),
+        rng_seed: rng.next(),
+        desc: rng.chance(1, 3),
+        v6: rng.chance(1, 6),
+        ..CaseCfg::default()
+    }
+}
+
+fn c14_run(case: &mut Case, rng: &mut Rng) {
+    let hosts = case.cfg.hosts;
+    let tick = case.cfg.tick_ms;
+    let mut tr = Traffic { next_id: 1 };
+    for h in 0..hosts {
+        case.ctl(&format!("q h{h} udp_bind s0 any:9000"));
+    }
+    case.ctl("step");
+    let rounds = rng.range(8, 30);
+    let mut link_min: Vec<((usize, usize), u64)> = Vec::new();
+    for _ in 0..rounds {
+        if rng.chance(1, 5) {
+            let a = rng.below(hosts as u64) as usize;
+            let b = (a + 1 + rng.below(hosts as u64 - 1) as usize) % hosts;
+            // keep max >= min on every link (max < min is a configuration error that panics)
+            let key = (a.min(b), a.max(b));
+            match rng.below(3) {
+                0 => {
+                    let v = rng.range(0, 20);
+                    link_min.retain(|(k, _)| *k != key);
+                    link_min.push((key, v));
+                    case.ctl(&format!("setlat h{a} h{b} {v}"));
+                }
+                1 => {
+                    let lm = link_min.iter().find(|(k, _)| *k == key).map(|(_, v)| *v);
+                    let lm = match lm {
+                        Some(v) => v,
+                        None => {
+                            link_min.push((key, case.cfg.minlat_ms));
+                            case.cfg.minlat_ms
+                        }
+                    };
+                    case.ctl(&format!("setmaxlat h{a} h{b} {}", lm + rng.range(0, 20)));
+                }
+                _ => case.ctl(&format!("setgmaxlat {}", case.cfg.minlat_ms + rng.range(0, 30))),
+            }
+        }
+        // receive first (phase A), then possibly move inside the window, then send a burst
+        tr.recv_all(case, 10);
+        for h in 0..hosts {
+            if tick > 1 && rng.chance(1, 3) {
+                case.ctl(&format!("q h{h} sleep {}", rng.range(1, tick - 1)));
+            }
+            for _ in 0..rng.below(4) {
+                let peer = (h + 1 + rng.below(hosts as u64 - 1) as usize) % hosts;
+                let id = tr.next_id;
+                tr.next_id += 1;
+                case.ctl(&format!("q h{h} udp_send s0 h{peer}:9000 {}", hex(&[(id >> 8) as u8, id as u8])));
+            }
+        }
+        case.ctl("step");
+    }
+    // drain: longest configured latency is below 64 ms
+    for _ in 0..(70 / tick + 3) {
+        tr.recv_all(case, 10);
+        case.ctl("step");
+    }
+    case.ctl("mark drained");
 }
